@@ -23,12 +23,20 @@ struct Built {
     stmt: Stmt,
     targets: Vec<(Lval, Ty)>,
     shape_tys: Vec<Ty>,
+    deftype: bool,
 }
 
 fn build_input(t: &mut Tape) -> Built {
     let n = 1 + t.below(5);
     let mut targets: Vec<(Lval, Ty)> = vec![];
-    let names: &[(&str, Ty)] = &[("A", Ty::Sng), ("B%", Ty::Int), ("C#", Ty::Dbl), ("S$", Ty::Str), ("T$", Ty::Str), ("D!", Ty::Sng), ("I%", Ty::Int), ("X", Ty::Sng)];
+    // a third of the cases type some undecorated names by their first letter (DEFSTR N, DEFINT M,
+    // DEFDBL L): a variable's type is its type however it got it, and a suffix still wins
+    let deftype = t.chance(1, 3);
+    let mut names: Vec<(&str, Ty)> = vec![("A", Ty::Sng), ("B%", Ty::Int), ("C#", Ty::Dbl), ("S$", Ty::Str), ("T$", Ty::Str), ("D!", Ty::Sng), ("I%", Ty::Int), ("X", Ty::Sng)];
+    if deftype {
+        names.extend([("N", Ty::Str), ("NA", Ty::Str), ("M", Ty::Int), ("L", Ty::Dbl), ("N%", Ty::Int), ("M$", Ty::Str), ("N1", Ty::Str)]);
+    }
+    let names = &names[..];
     for k in 0..n {
         // an array target whose subscript uses an earlier Integer target (kept in range by AND 7)
         let want_float = t.chance(1, 3);
@@ -67,7 +75,7 @@ fn build_input(t: &mut Tape) -> Built {
     };
     let nocaps = t.chance(1, 3);
     let shape_tys = targets.iter().map(|(_, t)| *t).collect();
-    Built { stmt: Stmt::Input { nocaps, prompt, targets: targets.iter().map(|(l, _)| l.clone()).collect() }, targets, shape_tys }
+    Built { stmt: Stmt::Input { nocaps, prompt, targets: targets.iter().map(|(l, _)| l.clone()).collect() }, targets, shape_tys, deftype }
 }
 
 fn field_for(t: &mut Tape, ty: Ty, good: bool) -> String {
@@ -144,6 +152,9 @@ fn check_input(t: &mut Tape, ctx: &Ctx) -> Outcome {
     let b = build_input(t);
     let mut prog = Program::default();
     let uses_arrays = b.targets.iter().any(|(l, _)| matches!(l, Lval::Elem(_, _)));
+    if b.deftype {
+        prog.lines.push(Line { num: 1, stmts: vec![Stmt::DefType(Ty::Str, 'N', 'N'), Stmt::DefType(Ty::Int, 'M', 'M'), Stmt::DefType(Ty::Dbl, 'L', 'L')] });
+    }
     // optional pre-set values so that "unchanged" is visible
     prog.lines.push(Line { num: 5, stmts: vec![Stmt::Let { lv: Lval::Var(Name::new("A")), e: E::Lit("77".into()), kw: false }, Stmt::Let { lv: Lval::Var(Name::new("S$")), e: E::Str("old".into()), kw: false }] });
     prog.lines.push(Line { num: 10, stmts: vec![b.stmt.clone()] });
@@ -210,6 +221,45 @@ fn check_input(t: &mut Tape, ctx: &Ctx) -> Outcome {
     }
 }
 
+
+// ------------------------------------------------------------------ literal cases
+
+const CASES: &[&str] = &[
+    "10 DEFSTR N:INPUT N:PRINT \"[\";N;\"]\"\nRUN\n<123\n=> ? «caps»123\n[123]\n",
+    "10 DEFSTR N:INPUT N,N%:PRINT \"[\";N;\"]\";N%\nRUN\n<\"a,b\", 7 \n=> ? «caps»\"a,b\", 7 \n[a,b] 7 \n",
+];
+
+fn gen_cases(part: usize, parts: usize, _th: bool, emit: &mut dyn FnMut(&str)) {
+    for (i, s) in CASES.iter().enumerate() {
+        if i % parts == part {
+            emit(s);
+        }
+    }
+}
+
+/// Lines are typed; lines starting with `<` are replies to INPUT.
+fn check_case(item: &str, _ctx: &Ctx) -> Outcome {
+    let (prog, want) = match item.rsplit_once("\n=> ") {
+        Some((p, w)) => (p, w.to_string()),
+        None => return Outcome::discard("no expectation"),
+    };
+    let mut term = crate::drive::Term::new();
+    let mut o = crate::drive::Opts::default();
+    o.replies = prog.split('\n').filter_map(|l| l.strip_prefix('<')).map(|r| r.to_string()).collect();
+    for l in prog.split('\n').filter(|l| !l.starts_with('<')) {
+        term.line(l, &mut o);
+    }
+    let evs = term.take();
+    if let Some(m) = crate::drive::has_panic(&evs) {
+        return Outcome::fail("panic", m, item.to_string());
+    }
+    let got = crate::drive::flat(&evs);
+    if got != want {
+        return Outcome::fail("input-case", format!("got {:?}\nwant {:?}", got, want), item.to_string());
+    }
+    Outcome::pass(true, hash_str(item)).with_case(item.to_string())
+}
+
 pub fn property() -> Property {
     Property {
         id: "C17",
@@ -221,6 +271,6 @@ the stored values' types are probed. Non-trivial: >= 2 targets and (a rejected r
             "undocumented numeric spellings (INF, NAN, a sign after & / &H) are not generated",
             "only the values of the targets after acceptance are compared; what a rejected reply may have written on the way is not asserted",
         ],
-        subs: vec![Sub::tape("input_dialogues", check_input, 300_000, 6_000_000, 300)],
+        subs: vec![Sub::items("input_cases", gen_cases, check_case, false), Sub::tape("input_dialogues", check_input, 300_000, 6_000_000, 300)],
     }
 }
